@@ -357,6 +357,29 @@ def update (H : Bytes → Str) (src : Src) (st : DState) (doc : JObj) : Res (DSt
       | .panic m => .panic m
     | _ => .panic "root_identifier_not_a_string"
 
+/-! ### The public entry points with their nesting guard
+
+  `create_object`, `update_object` and `update` begin with `is_too_deep`; `commit` checks its information
+  (after the "nothing staged" shortcut).  The calls `update` and `resolve_as` make to `update_object` pass the
+  guard again in the code; `Props.C03c.update_inner_guards_pass` shows that it cannot fire there once the
+  outer guard has passed, which is why the unguarded functions are used inside. -/
+
+def createObjectG (H : Bytes → Str) (st : DState) (u : Str) (o : JObj) : Res (DState × Option Str) :=
+  if isTooDeep o then .err "object_nested_too_deeply" else createObject H st u o
+
+def updateObjectG (H : Bytes → Str) (src : Src) (st : DState) (u : Str) (o : JObj) : Res (DState × Option Str) :=
+  if isTooDeep o then .err "object_nested_too_deeply" else updateObject H src st u o
+
+def updateG (H : Bytes → Str) (src : Src) (st : DState) (doc : JObj) : Res (DState × Str) :=
+  if isTooDeep doc then .err "document_nested_too_deeply" else update H src st doc
+
+/-- `commit` refuses (before anything is resolved or written) when something is staged and the information is
+    nested too deeply -/
+def commitRefusesInfo (info : Option JVal) : Bool :=
+  match info with
+  | some (.obj i) => isTooDeep i
+  | _ => false
+
 /-- `Melda::reload` / `Melda::reload_until` at document level: refused, with the replica untouched, when a
     revision OR an object body is staged (a body can be staged without a revision: an object created and
     removed again through the object API leaves its body in `DataStorage.stage`) -/
